@@ -145,7 +145,14 @@ def infeasible(cons, limit=3000):
         if onesided:
             cur = [c for c in cur if not any(k in onesided for k in c if k != "")]
             continue
-        v = min(vars_, key=lambda k: (vars_[k][0] * vars_[k][1], str(k)))
+        # prefer variables whose coefficients are all +-1 (exact elimination, keeps integer tightening effective),
+        # then the cheapest product of positive and negative occurrences
+        mx = {}
+        for c in cur:
+            for k, x in c.items():
+                if k != "":
+                    mx[k] = max(mx.get(k, 0), abs(x))
+        v = min(vars_, key=lambda k: (0 if mx.get(k, 1) == 1 else 1, vars_[k][0] * vars_[k][1], mx.get(k, 1), str(k)))
         pos = [c for c in cur if c.get(v, 0) > 0]
         neg = [c for c in cur if c.get(v, 0) < 0]
         rest = [c for c in cur if c.get(v, 0) == 0]
@@ -221,6 +228,11 @@ class State:
         self.add(-p)
 
 
+def _nonneg(st, a):
+    lo = st.rng.get(a, (None, None))[0]
+    return lo is not None and lo >= 0
+
+
 def relevant(st, goal_atoms, extra=()):
     """constraints transitively sharing atoms with the goal (cone of influence), plus ranges of the atoms involved"""
     atoms = set(goal_atoms)
@@ -251,7 +263,7 @@ def relevant(st, goal_atoms, extra=()):
             cons.append({(a,): 1, "": -hi})
     # product monomials of non-negative atoms are non-negative; m*a >= m when a >= 1 is not assumed
     for m in monos:
-        if len(m) > 1 and all((st.rng.get(a, (None, None))[0] or -1) >= 0 for a in m):
+        if len(m) > 1 and all(_nonneg(st, a) for a in m):
             cons.append({m: -1})
     return cons, atoms
 
@@ -279,7 +291,7 @@ def product_lemmas(st, cons):
     mult = set()
     for m in monos:
         for a in m:
-            if (st.rng.get(a, (None, None))[0] or -1) >= 0:
+            if _nonneg(st, a):
                 mult.add(a)
     out = []
     for c in cons:
@@ -1306,18 +1318,8 @@ class Num:
             if x[0] in ("var", "field") and len(x) > 2:
                 n = x[-1]
                 k = ("v:" + x[1]) if x[0] == "var" else self.key(x[3], st)
-                d = None
-                if n["k"] == "un":
-                    d = 1 if "++" in n["op"] else -1
-                elif n["op"] in ("+=", "-="):
-                    c = fn.is_const(n["a"][1])
-                    if c is not None and c >= 0:
-                        d = 1 if n["op"] == "+=" else -1
-                    else:
-                        rv = None
-                        d = 0
-                else:
-                    d = 0
+                cs = self.const_step(n)
+                d = 0 if cs is None or cs == 0 else (1 if cs > 0 else -1)
                 direction[k] = d if k not in direction or direction[k] == d else 0
             elif x[0] == "var":
                 direction["v:" + x[1]] = 0
@@ -1352,6 +1354,42 @@ class Num:
                 st.add(p0 - newv[k])
             elif d == -1:
                 st.add(newv[k] - p0)
+        # bound kept from the loop condition: x < N with x stepping by +1 and N loop-invariant  =>  x <= N at the header
+        hb = fn.blocks[header]
+        stepkeys = {}
+        for x in eff:
+            if x[0] in ("var", "field") and len(x) > 2:
+                k = ("v:" + x[1]) if x[0] == "var" else self.key(x[3], st)
+                stepkeys.setdefault(k, []).append(self.const_step(x[-1]))
+        hdr_blocks = [header] + [s_id for s_id, _, _ in edges(fn, header) if s_id in self.loops()[header]]
+        for hb_id in [header]:
+            B = fn.blocks[hb_id]
+            c = fn.d(B.cond) if B.cond is not None else None
+            if c is not None and c["k"] == "bin" and c["op"] in ("<", "<=", "!="):
+                lx = fn.d(c["a"][0])
+                while lx is not None and lx["k"] == "cast":
+                    lx = fn.d(lx["a"][0])
+                kx = self.key(lx, st) if lx is not None and lx["k"] in ("var", "member") else None
+                if kx in newv and stepkeys.get(kx) and all(sv == 1 for sv in stepkeys[kx]):
+                    # N must not be modified in the loop
+                    modified = {("v:" + y[1]) for y in eff if y[0] == "var"}
+                    nn_ = fn.d(c["a"][1])
+                    ok = True
+                    for y in fn.walk(nn_, follow_refs=True):
+                        if y["k"] == "var" and ("v:" + y["n"]) in modified:
+                            ok = False
+                        if y["k"] in ("call", "index") or (y["k"] == "un" and y["op"] == "deref"):
+                            ok = False
+                        if y["k"] == "member":
+                            ky = self.key(y, st)
+                            if ky in newv or any(z[0] == "call" for z in eff):
+                                ok = False
+                    if ok:
+                        N = self.val(c["a"][1], st)
+                        if N is not None:
+                            bound = N if c["op"] in ("<", "!=") else N + 1
+                            if entails(st, pre[kx] - bound):
+                                st.add(newv[kx] - bound)
         for coeffs in cands:
             rel = Poly()
             for k, c in coeffs.items():
@@ -1384,6 +1422,32 @@ class Num:
                 return (0, MAXU[64])
         return (None, None)
 
+    def const_step(self, n):
+        """constant step of an update statement node (x++, x += c, x = x + c, x = (T)x + c); None when not constant"""
+        fn = self.fn
+        if n["k"] == "un":
+            return self.step_of(fn.d(n["a"][0])) * (1 if "++" in n["op"] else -1)
+        if n["op"] in ("+=", "-="):
+            cc = fn.is_const(n["a"][1])
+            if cc is not None:
+                return cc * self.step_of(fn.d(n["a"][0])) * (1 if n["op"] == "+=" else -1)
+            return None
+        if n["op"] == "=":
+            lhs = fn.d(n["a"][0])
+            r = fn.d(n["a"][1])
+            while r is not None and r["k"] == "cast":
+                r = fn.d(r["a"][0])
+            if r is not None and r["k"] == "bin" and r["op"] in ("+", "-"):
+                x, y = fn.d(r["a"][0]), fn.d(r["a"][1])
+                xx = x
+                while xx is not None and xx["k"] == "cast":
+                    xx = fn.d(xx["a"][0])
+                if xx is not None and fn.show(xx) == fn.show(lhs) and fn.is_const(y) is not None:
+                    xt = self.ty(x)
+                    esz = (xt.get("psz") or 1) if xt.get("ptr") else 1
+                    return fn.is_const(y) * esz * (1 if r["op"] == "+" else -1)
+        return None
+
     def relation_candidates(self, header, eff, pre, direction, st):
         """Houdini-style: candidate relations  c_a*delta_a == c_b*delta_b  between two keys all of whose updates in the
         loop are constant steps outside nested loops; a candidate is kept only when every path through one iteration
@@ -1403,13 +1467,7 @@ class Num:
                 k = ("v:" + x[1]) if x[0] == "var" else self.key(x[3], st)
                 if k not in pre:
                     continue
-                c = None
-                if n["k"] == "un":
-                    c = self.step_of(fn.d(n["a"][0])) * (1 if "++" in n["op"] else -1)
-                elif n["op"] in ("+=", "-="):
-                    cc = fn.is_const(n["a"][1])
-                    if cc is not None:
-                        c = cc * self.step_of(fn.d(n["a"][0])) * (1 if n["op"] == "+=" else -1)
+                c = self.const_step(n)
                 blk = self.elem_of.get(n["id"], (None, None))[0]
                 if c is None or blk is None or blk in inner:
                     bad.add(k)
@@ -1469,6 +1527,9 @@ class Num:
             if tid in self.elem_of:
                 targets.setdefault(self.elem_of[tid], []).append(tid)
         want_blocks = {b for (b, i) in targets}
+        want_exit = -1 in target_ids
+        if want_exit:
+            want_blocks.add(fn.exit)
         # blocks from which a wanted block is reachable
         can = set(want_blocks)
         changed = True
@@ -1498,6 +1559,8 @@ class Num:
                 continue  # back edge: covered by the havocked header state
             B = fn.blocks[b]
             states = [st]
+            if want_exit and b == fn.exit:
+                out[-1].append(st.copy())
             for i, e in enumerate(B.elems):
                 if (b, i) in targets:
                     for tid in targets[(b, i)]:
